@@ -75,9 +75,9 @@ Definition c01_aligned (pre : pool) (o : op) (io : out val) (post : pool) : bool
       | ODedupInplace _ _ _ | ODropNa _ | ODropRow _ _ =>
         sub_multiset (rows g) (rows f)
       | OShift _ _ =>
-        forallb (fun r => row_in r (rows f) || row_all_nil r) (rows g)
+        let rf := rows f in forallb (fun r => row_in r rf || row_all_nil r) (rows g)
       | OLoc _ _ _ | OIloc _ _ _ | OMultiSelect _ _ | ODropColumn _ _ =>
-        forallb (fun r => existsb (row_proj_of r) (rows f)) (rows g)
+        let rf := rows f in forallb (fun r => existsb (row_proj_of r) rf) (rows g)
       | OAppendRow _ _ =>
         list_eqb (fun a b => row_proj_of a b) (rows f) (firstn (nrows f) (rows g))
       | OAddColumn _ _ _ | ORename _ _ _ | OFillNa _ _ | OAstype _ _ _ | ODatetime _ _ _ | OSetCell _ _ _ _ =>
